@@ -23,6 +23,7 @@ import (
 	"sync"
 	"sync/atomic"
 	"testing"
+	"verifharness/gen"
 
 	"github.com/goose-lang/goose"
 	"pgregory.net/rapid"
@@ -536,9 +537,9 @@ func genCase(t *rapid.T) Case {
 	swTwo, swLast, swSingle := ev.SwitchOn(swTwoFfi), ev.SwitchOn(swLastElem), ev.SwitchOn(swSingleElem)
 	c.Mod.Path = rapid.SampledFrom(modPaths).Draw(t, "modpath")
 	c.Mod.GroveImport = rapid.SampledFrom([]string{"", "", gmod.MachineDisk, gmod.PrimitiveDisk, gmod.MachineAsync}).Draw(t, "groveImport")
-	wantTwo := rapid.IntRange(0, 2).Draw(t, "wantTwoFfi") == 0
+	wantTwo := gen.Range(t, "wantTwoFfi", 0, 2) == 0
 	allowTwo := wantTwo && !swTwo
-	n := rapid.IntRange(1, 7).Draw(t, "npkgs")
+	n := gen.Range(t, "npkgs", 1, 7)
 
 	leaves, _ := leafGraph()
 	pkgNameOf := map[string]string{} // import path -> Go package name
@@ -554,15 +555,15 @@ func genCase(t *rapid.T) Case {
 	usedDirs := map[string]bool{} // mapped dir -> used (as package)
 	for i := 0; i < n; i++ {
 		var gp genPkg
-		if i == 0 && rapid.IntRange(0, 2).Draw(t, "root") == 0 {
+		if i == 0 && gen.Range(t, "root", 0, 2) == 0 {
 			gp.dir = ""
 			gp.name = mapPath(lastElem(c.Mod.Path))
 		} else {
 			// parent: module root, an existing package directory, or a fresh intermediate directory
 			parent := ""
-			switch k := rapid.IntRange(0, 3).Draw(t, "parentKind"); {
+			switch k := gen.Range(t, "parentKind", 0, 3); {
 			case k == 1 && len(gps) > 0:
-				parent = gps[rapid.IntRange(0, len(gps)-1).Draw(t, "parent")].dir
+				parent = gps[gen.Range(t, "parent", 0, len(gps)-1)].dir
 			case k == 2:
 				parent = rapid.SampledFrom(elems).Draw(t, "midElem")
 			}
@@ -598,22 +599,22 @@ func genCase(t *rapid.T) Case {
 	for i, gp := range gps {
 		var cands []string
 		for j := 0; j < i; j++ {
-			if rapid.IntRange(0, 9).Draw(t, fmt.Sprintf("imp%d_%d", i, j)) < 4 {
+			if gen.Range(t, fmt.Sprintf("imp%d_%d", i, j), 0, 9) < 4 {
 				cands = append(cands, gps[j].ip)
 			}
 		}
-		switch k := rapid.IntRange(0, 9).Draw(t, "ffiKind"); {
+		switch k := gen.Range(t, "ffiKind", 0, 9); {
 		case k < 3:
 			cands = append(cands, rapid.SampledFrom(ffiLeaves).Draw(t, "ffi"))
 		case k == 3:
 			cands = append(cands, rapid.SampledFrom(ffiLeaves).Draw(t, "ffi1"), rapid.SampledFrom(ffiLeaves).Draw(t, "ffi2"))
 		}
 		for _, l := range plainLeaves {
-			if rapid.IntRange(0, 9).Draw(t, "leaf") < 2 {
+			if gen.Range(t, "leaf", 0, 9) < 2 {
 				cands = append(cands, l)
 			}
 		}
-		if rapid.IntRange(0, 9).Draw(t, "std") < 2 {
+		if gen.Range(t, "std", 0, 9) < 2 {
 			cands = append(cands, stdSingle)
 		}
 		var imps []string
@@ -645,20 +646,20 @@ func genCase(t *rapid.T) Case {
 
 		// spread the imports over files: every import in >= 1 file, some in
 		// more; package names unique within a file
-		nf := rapid.IntRange(1, 3).Draw(t, "nfiles")
+		nf := gen.Range(t, "nfiles", 1, 3)
 		names := append([]string(nil), fileNames...)
 		perm := rapid.Permutation(names).Draw(t, "fileNames")
 		files := make([]gmod.File, nf)
 		fileHas := make([]map[string]bool, nf) // package names used in file
 		for k := range files {
 			files[k].Name = perm[k]
-			files[k].Style = rapid.IntRange(0, 2).Draw(t, "style")
+			files[k].Style = gen.Range(t, "style", 0, 2)
 			fileHas[k] = map[string]bool{}
 		}
 		order := rapid.Permutation(append([]string(nil), imps...)).Draw(t, "importOrder")
 		for _, ip := range order {
 			name := pkgNameOf[ip]
-			first := rapid.IntRange(0, nf-1).Draw(t, "file")
+			first := gen.Range(t, "file", 0, nf-1)
 			placed := false
 			for d := 0; d < nf; d++ {
 				k := (first + d) % nf
@@ -678,7 +679,7 @@ func genCase(t *rapid.T) Case {
 			}
 			// repetition across files
 			for k := 0; k < nf; k++ {
-				if !fileHas[k][name] && rapid.IntRange(0, 3).Draw(t, "repeat") == 0 {
+				if !fileHas[k][name] && gen.Range(t, "repeat", 0, 3) == 0 {
 					files[k].Imports = append(files[k].Imports, ip)
 					fileHas[k][name] = true
 				}
@@ -700,7 +701,7 @@ func genCase(t *rapid.T) Case {
 	}
 
 	// patterns
-	switch rapid.IntRange(0, 3).Draw(t, "patternMode") {
+	switch gen.Range(t, "patternMode", 0, 3) {
 	case 0, 1:
 		c.Patterns = []string{"./..."}
 	case 2:
@@ -709,17 +710,17 @@ func genCase(t *rapid.T) Case {
 		}
 	default:
 		ord := rapid.Permutation(indices(n)).Draw(t, "order")
-		m := rapid.IntRange(1, n).Draw(t, "subset")
+		m := gen.Range(t, "subset", 1, n)
 		for _, k := range ord[:m] {
 			c.Patterns = append(c.Patterns, patternOf(t, gps[k]))
 		}
 	}
 	for _, f := range []string{"-typecheck", "-source-comments", "-skip-interfaces"} {
-		if rapid.IntRange(0, 4).Draw(t, "flag") == 0 {
+		if gen.Range(t, "flag", 0, 4) == 0 {
 			c.Flags = append(c.Flags, f)
 		}
 	}
-	c.Lib = rapid.IntRange(0, 2).Draw(t, "lib") == 0
+	c.Lib = gen.Range(t, "lib", 0, 2) == 0
 	return c
 }
 
